@@ -153,6 +153,43 @@ def big_result(spec, values):
             "all_x": all(v is not None and set(getattr(v, b["field"])) <= {"x"} for v in values)}
 
 
+def snap(kw):
+    """the caller's request argument as bytes / canonical text, to tell whether the call changed it"""
+    r = kw.get("request")
+    if r is None:
+        return None
+    if hasattr(type(r), "serialize") and hasattr(type(r), "pb"):
+        return "m:" + D.b64(type(r).pb(r).SerializeToString(deterministic=True))
+    if hasattr(r, "SerializeToString"):
+        return "m:" + D.b64(r.SerializeToString(deterministic=True))
+    if isinstance(r, dict):
+        return "d:" + repr(sorted((k, repr(v)) for k, v in r.items()))
+    return None
+
+
+def run_sequence(spec, fn, kw):
+    """the same argument objects passed spec['sequence'] times; a pager is walked to its end each time"""
+    out = []
+    for _ in range(spec["sequence"]):
+        before = snap(kw)
+        res = fn(**kw)
+        n = len([x for x in res]) if spec.get("consume") == "pager" else None
+        out.append({"before": before, "after": snap(kw), "items": n})
+    return {"kind": "sequence", "rounds": out}
+
+
+async def run_sequence_async(spec, fn, kw):
+    out = []
+    for _ in range(spec["sequence"]):
+        before = snap(kw)
+        res = fn(**kw)
+        if inspect.isawaitable(res):
+            res = await res
+        n = len([x async for x in res]) if spec.get("consume") == "pager" else None
+        out.append({"before": before, "after": snap(kw), "items": n})
+    return {"kind": "sequence", "rounds": out}
+
+
 def run_sync(spec, gs, pkg, hs=None):
     rec = spec["_rec"]
     rec["stage"] = "import"
@@ -167,7 +204,12 @@ def run_sync(spec, gs, pkg, hs=None):
     kw.setdefault("timeout", spec.get("deadline", 30.0))   # a wrong arity must fail, not hang; generous: the machine may be busy
     kw.setdefault("metadata", [(CALL_ID, str(spec.get("id")))])
     rec["stage"] = "call"
+    if spec.get("sequence"):
+        rec["result"] = run_sequence(spec, fn, kw)
+        return rec
+    before = snap(kw)
     res = fn(**kw)
+    rec["arg_before"], rec["arg_after"] = before, snap(kw)
     if spec.get("big_reply"):
         rec["result"] = big_result(spec, list(res) if spec.get("consume") == "stream" else [res])
     elif spec.get("consume", "value") == "stream":
@@ -193,9 +235,14 @@ async def run_async(spec, gs, pkg):
     kw.setdefault("timeout", spec.get("deadline", 30.0))
     kw.setdefault("metadata", [(CALL_ID, str(spec.get("id")))])
     rec["stage"] = "call"
+    if spec.get("sequence"):
+        rec["result"] = await run_sequence_async(spec, fn, kw)
+        return rec
+    before = snap(kw)
     res = fn(**kw)
     if inspect.isawaitable(res):
         res = await res
+    rec["arg_before"], rec["arg_after"] = before, snap(kw)
     if spec.get("big_reply"):
         if spec.get("consume") == "stream":
             if inspect.isawaitable(res):
@@ -237,7 +284,7 @@ def main():
         gs.default_reply = make_reply(spec)
         if spec.get("big_reply"):
             gs.default_reply = {"messages": [D.b64(big_reply(spec))] * spec.get("big_count", 1)}
-        gs.set_script({})
+        gs.set_script(spec.get("script") or {})
         rec = {"id": spec.get("id"), "ok": True}
         spec["_rec"] = rec
         try:
